@@ -1011,7 +1011,8 @@ Qed.
 
 Lemma read_ok : forall Fr F o m f o' m' r,
   obj_inv o -> rel Fr o m -> f_ndim f <> 0 -> length (f_naxes f) = f_ndim f ->
-  step_read cfg_fixed F m o f = (o', m', r) -> obj_inv o' /\ rel Fr o' m'.
+  step_read cfg_fixed F m o f = (o', m', r) ->
+  obj_inv o' /\ rel Fr o' m' /\ (auxs o' = auxs o \/ auxs o' = [] \/ auxs o' = map fst (f_aux f)).
 Proof.
   intros Fr F o m f o' m' r I HR Hnd Hlen H. unfold step_read in H.
   destruct (Nat.eqb_spec (ndim o) 0) as [E0|E0]; cbn [negb] in H; [|inversion H; subst; auto].
@@ -1020,7 +1021,7 @@ Proof.
   pose proof (obj_inv_part0 I HR) as HP.
   destruct (phase_eqb (f_fail f) PHdu || phase_eqb (f_fail f) PDim).
   { destruct (on_failure_ok F RInput HP (obj_inv_clearable I)) as [m1 [E1 HR1]]. rewrite E1 in H. inversion H; subst.
-    split; [apply obj_inv_empty|exact HR1]. }
+    split; [apply obj_inv_empty|split; [exact HR1|right; left; reflexivity]]. }
   set (o1 := with_shape (with_ndim o (f_ndim f)) (f_orders f) (f_nknots f) (f_naxes f)) in *.
   assert (HP1 : part0 Fr o1 m).
   { apply (part0_recore o o1 eq_refl); [|exact HP]. intros g id b Hg.
@@ -1063,12 +1064,12 @@ Proof.
         + rewrite <- Ep. unfold read_simple. rewrite <- app_assoc. reflexivity.
         + intros Hin. unfold RS1, RS2 in Hin. split_in Hin. kill_mem. }
     destruct (on_failure_ok F why HP4 HC4) as [m5 [E5 HR5]]. rewrite E5 in H. inversion H; subst.
-    split; [apply obj_inv_empty|exact HR5].
+    split; [apply obj_inv_empty|split; [exact HR5|right; left; reflexivity]].
   - (* complete *)
     cbn [on_failure] in H. inversion H; subst o' m' r. clear H.
     rewrite (Er eq_refl), app_nil_r in Ep. subst p1.
     assert (Hown : forall g, In g (allocs (read_simple f)) -> is_owned (get o4 g) = true) by exact H41.
-    destruct HP4 as [HK4 HG4 HC4 HR4]. split; [|exact HR4].
+    destruct HP4 as [HK4 HG4 HC4 HR4]. split; [|split; [exact HR4|right; right; first [exact Hl4|reflexivity]]].
     constructor; auto.
     + intros g. apply no_garbage_get. exact HG4.
     + intros _. apply Hown. apply in_allocs_read. left. simpl; auto.
@@ -1135,7 +1136,7 @@ Proof. intros g n k H. apply in_full_fields. auto. Qed.
 
 Lemma fit_ok : forall Fr F o m s o' m' r,
   obj_inv o -> rel Fr o m -> (ft_invalid s = false -> ft_orders s <> [] /\ length (ft_nknots s) = length (ft_orders s)) ->
-  step_fit cfg_fixed F m o s = (o', m', r) -> obj_inv o' /\ rel Fr o' m'.
+  step_fit cfg_fixed F m o s = (o', m', r) -> obj_inv o' /\ rel Fr o' m' /\ (auxs o' = auxs o \/ auxs o' = []).
 Proof.
   intros Fr F o m s o' m' r I HR Hwf H. unfold step_fit in H.
   destruct (ft_invalid s); [inversion H; subst; auto|]. destruct (Hwf eq_refl) as [Hne Hlen]. clear Hwf.
@@ -1178,12 +1179,12 @@ Proof.
         + rewrite <- Ep. unfold fit_simple. rewrite <- app_assoc. reflexivity.
         + intros Hin. unfold FS2 in Hin. split_in Hin. kill_mem. }
     destruct (on_failure_ok F why HP4 HC4) as [m5 [E5 HR5]]. rewrite E5 in H. inversion H; subst.
-    split; [apply obj_inv_empty|exact HR5].
+    split; [apply obj_inv_empty|split; [exact HR5|right; reflexivity]].
   - cbn [on_failure] in H. inversion H; subst o' m' r. clear H.
     rewrite (Er eq_refl), app_nil_r in Ep. subst p1.
     assert (Haux : forall g, is_aux_field g = true -> get o4 g = get o g).
     { intros g Ha. apply Hold. intros Hin. apply allocs_touched in Hin. apply touched_fit_nonaux in Hin. congruence. }
-    destruct HP4 as [HK4 HG4 HC4 HR4]. split; [|exact HR4].
+    destruct HP4 as [HK4 HG4 HC4 HR4]. split; [|split; [exact HR4|left; first [exact Hl4|reflexivity|congruence]]].
     constructor; auto.
     + intros g. apply no_garbage_get. exact HG4.
     + rewrite Ha4. intros Hk. rewrite Haux by reflexivity. apply (oi_aux0 I Hk).
@@ -1225,7 +1226,7 @@ Proof. intros n. unfold conv_simple, kalloc_loop. simpl. apply simple_flat_map. 
 
 Lemma convolve_ok : forall Fr F o m dim nk o' m' r,
   obj_inv o -> rel Fr o m ->
-  step_convolve cfg_fixed F m o dim nk = (o', m', r) -> obj_inv o' /\ rel Fr o' m'.
+  step_convolve cfg_fixed F m o dim nk = (o', m', r) -> obj_inv o' /\ rel Fr o' m' /\ (auxs o' = auxs o \/ auxs o' = []).
 Proof.
   intros Fr F o m dim nk o' m' r I HR H. unfold step_convolve in H. cbn [fx_conv cfg_fixed andb] in H.
   destruct (Nat.ltb_spec dim (ndim o)) as [Hd|Hd]; cbn [negb orb] in H; [|inversion H; subst; auto].
@@ -1282,12 +1283,12 @@ Proof.
   - assert (HC4 : clearable o4).
     { apply clearable_intro; [exact Hfull| |]; intros; apply owned_not_null; assumption. }
     destruct (on_failure_ok F why HP4 HC4) as [m5 [E5 HR5]]. rewrite E5 in H. inversion H; subst.
-    split; [apply obj_inv_empty|exact HR5].
+    split; [apply obj_inv_empty|split; [exact HR5|right; reflexivity]].
   - cbn [on_failure] in H. inversion H; subst o' m' r. clear H.
     rewrite (Er eq_refl), app_nil_r in Ep. subst p1.
     assert (Haux : forall g, is_aux_field g = true -> get o4 g = get o g).
     { intros g Ha. apply Hold. rewrite in_allocs_conv. intros [->|[i [_ ->]]]; discriminate. }
-    destruct HP4 as [HK4 HG4 HC4 HR4]. split; [|exact HR4].
+    destruct HP4 as [HK4 HG4 HC4 HR4]. split; [|split; [exact HR4|left; congruence]].
     constructor; auto.
     + intros g. apply no_garbage_get. exact HG4.
     + rewrite Ha4, Ha2. intros Hk. rewrite Haux by reflexivity. apply (oi_aux0 I Hk).
@@ -1298,4 +1299,296 @@ Proof.
     + intros _ g Hg. rewrite Hn4, Hn2 in Hg.
       destruct (in_dec field_eq_dec g (allocs (conv_simple n))) as [Hi|Hi]; [apply H41; exact Hi|].
       rewrite (Hold _ Hi). apply (oi_tbl I E0). exact Hg.
+Qed.
+
+(* ---------------------------------------------------------------------------------------------- *)
+(** * E7. the destructor *)
+
+Lemma destroy_ok : forall Fr F o m, obj_inv o -> rel Fr o m -> rel Fr empty_obj (destroy cfg_fixed F m o).
+Proof.
+  intros Fr F o m I HR. unfold destroy, destructor_prog. cbn [fx_clear cfg_fixed].
+  destruct (clear_ok Fr F o m (obj_inv_part0 I HR) (obj_inv_clearable I)) as [m' [E HR']]. rewrite E. exact HR'.
+Qed.
+
+(* ---------------------------------------------------------------------------------------------- *)
+(** * E8. write_key *)
+
+(* the byte count of a key is a function of the key (same string, same strlen) *)
+Definition keys_len (kl : nat -> nat) (l : list auxent) : Prop := Forall (fun a => aklen a = kl (akey a)) l.
+
+Lemma find_key_spec : forall k l s i, find_key k l s = Some i -> s <= i /\ i - s < length l /\ akey (nth (i - s) l {| akey := 0; aklen := 0; avlen := 0 |}) = k.
+Proof.
+  intros k l; induction l as [|a l IH]; intros s i H; simpl in H; [discriminate|].
+  destruct (Nat.eqb_spec (akey a) k) as [E|E].
+  - inversion H; subst. rewrite Nat.sub_diag. simpl. repeat split; auto; lia.
+  - apply IH in H. destruct H as [H1 [H2 H3]]. replace (i - s) with (S (i - S s)) by lia. simpl. repeat split; auto; lia.
+Qed.
+
+Lemma tmp_null : forall o k, obj_inv o -> get o (FTmp k) = Null.
+Proof.
+  intros o k I. destruct (get o (FTmp k)) eqn:E; try reflexivity; exfalso.
+  all: assert (Hd : In (FTmp k) (full_fields (ndim o) (naux o))) by (apply (oi_dom I); rewrite E; discriminate).
+  all: apply in_full_fields in Hd; rewrite in_tbl_fields, in_aux_flds in Hd.
+  all: destruct Hd as [Hd|[[Hd|[j [Hj Hd]]]|[Hd|[j [Hj Hd]]]]]; try discriminate; [simpl in Hd; intuition discriminate|intuition discriminate].
+Qed.
+
+Lemma aux_beyond_null : forall o i, obj_inv o -> naux o <= i -> get o (FAuxE i) = Null /\ get o (FAuxK i) = Null /\ get o (FAuxV i) = Null.
+Proof.
+  intros o i I Hi.
+  assert (A : forall g, (g = FAuxE i \/ g = FAuxK i \/ g = FAuxV i) -> get o g = Null).
+  { intros g Hg. destruct (get o g) eqn:E; try reflexivity; exfalso.
+    all: assert (Hd : In g (full_fields (ndim o) (naux o))) by (apply (oi_dom I); rewrite E; discriminate).
+    all: apply in_full_fields in Hd; rewrite in_tbl_fields, in_aux_flds in Hd.
+    all: destruct Hg as [-> | [-> | ->]].
+    all: destruct Hd as [Hd|[[Hd|[j [Hj Hd]]]|[Hd|[j [Hj Hd]]]]];
+         [discriminate|simpl in Hd; intuition discriminate|discriminate|discriminate
+         |destruct Hd as [Hd|[Hd|Hd]]; try discriminate; inversion Hd; lia]. }
+  repeat split; apply A; auto.
+Qed.
+
+Lemma get_with_auxs : forall o n l g, get (with_auxs o n l) g = get o g.
+Proof. reflexivity. Qed.
+
+(* same ownership picture, same contents: same invariant *)
+Lemma obj_inv_pointwise : forall o o', obj_inv o -> keys_nodup o' -> (forall g, get o' g = get o g) -> core o' = core o -> obj_inv o'.
+Proof.
+  intros o o' I HK G Hc. unfold core in Hc. inversion Hc as [[Hn Ho Hk Hx Ha Hl]].
+  constructor; auto.
+  - intros g. rewrite G. apply (oi_ok I).
+  - intros g id b Hg. rewrite G in Hg. rewrite (claim_core o' o g Hc). apply (oi_claims I _ _ _ Hg).
+  - intros g Hg. rewrite G in Hg. rewrite Hn, Ha. apply (oi_dom I _ Hg).
+  - rewrite Ha, G. apply (oi_aux0 I).
+  - rewrite Ha. intros i Hi. rewrite !G. apply (oi_auxi I _ Hi).
+  - rewrite Hl, Ha. apply (oi_auxlen I).
+  - rewrite Hx, Hn. apply (oi_len I).
+  - rewrite Hn. intros E g Hg. rewrite G. apply (oi_tbl0 I E _ Hg).
+  - rewrite Hn. intros E g Hg. rewrite G. apply (oi_tbl I E _ Hg).
+Qed.
+
+Ltac feq := cbn [field_eqb Nat.eqb].
+(* the same, but only on comparisons between two fields whose constructors are known *)
+Ltac feqc :=
+  repeat match goal with
+  | |- context[field_eqb ?a ?b] =>
+      first [ is_var b; fail 1 | is_var a; fail 1 | idtac ];
+      let v := eval cbn [field_eqb Nat.eqb] in (field_eqb a b) in
+      progress change (field_eqb a b) with v
+  end; cbv beta iota.
+
+(* the four local allocations of write_key (new key) *)
+Lemma wk_new_prog_result : forall F o e m o1 m1 r,
+  exec F (write_key_new_prog o e) m o = (o1, m1, r) ->
+  (forall k, get o (FTmp k) = Null) ->
+  core o1 = core o
+  /\ (forall g, (forall k, g <> FTmp k) -> get o1 g = get o g)
+  /\ (forall k, 4 <= k -> get o1 (FTmp k) = Null)
+  /\ freeable (get o1 (FTmp 0)) (8 * S (naux o)) = true /\ freeable (get o1 (FTmp 1)) 16 = true
+  /\ freeable (get o1 (FTmp 2)) (aklen e) = true /\ freeable (get o1 (FTmp 3)) (avlen e) = true
+  /\ (r = None -> exists i0 i1 i2 i3, get o1 (FTmp 0) = Owned i0 (8 * S (naux o)) /\ get o1 (FTmp 1) = Owned i1 16
+                                     /\ get o1 (FTmp 2) = Owned i2 (aklen e) /\ get o1 (FTmp 3) = Owned i3 (avlen e)).
+Proof.
+  intros F o e m o1 m1 r H Ht. unfold write_key_new_prog in H. cbn [exec] in H.
+  assert (NE : forall g k, (forall k, g <> FTmp k) -> field_eqb (FTmp k) g = false).
+  { intros g k Hg. apply field_eqb_neq. intros E. apply (Hg k). symmetry; exact E. }
+  assert (NK : forall j k, 4 <= k -> j < 4 -> field_eqb (FTmp j) (FTmp k) = false).
+  { intros j k H1 H2. apply field_eqb_neq. intros E. inversion E. lia. }
+  destruct (m_alloc F m (8 * S (naux o))) as [[i0|] ma] eqn:E0.
+  2:{ inversion H; subst. rewrite !Ht. simpl. repeat split; auto; discriminate. }
+  destruct (m_alloc F _ 16) as [[i1|] mb] eqn:E1.
+  2:{ inversion H; subst. rewrite !get_set. feq. rewrite !Ht. simpl. rewrite Nat.eqb_refl.
+      repeat split; auto; try discriminate; intros; rewrite !get_set; rewrite ?NE, ?NK by (auto; lia); auto. }
+  destruct (m_alloc F _ (aklen e)) as [[i2|] mc] eqn:E2.
+  2:{ inversion H; subst. rewrite !get_set. feq. rewrite !Ht. simpl. rewrite !Nat.eqb_refl.
+      repeat split; auto; try discriminate; intros; rewrite !get_set; rewrite ?NE, ?NK by (auto; lia); auto. }
+  destruct (m_alloc F _ (avlen e)) as [[i3|] md] eqn:E3.
+  2:{ inversion H; subst. rewrite !get_set. feq. rewrite !Ht. simpl. rewrite !Nat.eqb_refl.
+      repeat split; auto; try discriminate; intros; rewrite !get_set; rewrite ?NE, ?NK by (auto; lia); auto. }
+  inversion H; subst. rewrite !get_set. feq. simpl. rewrite !Nat.eqb_refl.
+  repeat split; auto; try (intros; rewrite !get_set; rewrite ?NE, ?NK by (auto; lia); auto; fail).
+  intros _. exists i0, i1, i2, i3. auto.
+Qed.
+
+Lemma run_ok_wk_new_prog : forall o e, (forall k, get o (FTmp k) = Null) -> run_ok (write_key_new_prog o e) o.
+Proof.
+  intros o e Ht. unfold write_key_new_prog. cbn [run_ok].
+  repeat (split; [rewrite ?get_set; feq; rewrite Ht; reflexivity|intros ?]). exact I.
+Qed.
+
+Lemma after_free_unowned : forall s, is_owned (after_free s) = false.
+Proof. destruct s; reflexivity. Qed.
+
+Lemma wk_cleanup : forall Fr F o e o1 m1 o2 m2 r,
+  rel Fr o1 m1 -> keys_nodup o1 ->
+  freeable (get o1 (FTmp 0)) (8 * S (naux o)) = true -> freeable (get o1 (FTmp 1)) 16 = true ->
+  freeable (get o1 (FTmp 2)) (aklen e) = true -> freeable (get o1 (FTmp 3)) (avlen e) = true ->
+  exec F (write_key_new_cleanup o e) m1 o1 = (o2, m2, r) ->
+  rel Fr o2 m2 /\ keys_nodup o2 /\ core o2 = core o1
+  /\ (forall g, (forall k, g <> FTmp k) -> get o2 g = get o1 g)
+  /\ (forall k, k < 4 -> get o2 (FTmp k) = Null) /\ (forall k, 4 <= k -> get o2 (FTmp k) = get o1 (FTmp k)).
+Proof.
+  intros Fr F o e o1 m1 o2 m2 r HR HK H0 H1 H2 H3 H.
+  assert (Hrun : run_ok (write_key_new_cleanup o e) o1).
+  { unfold write_key_new_cleanup. cbn [run_ok]. rewrite !get_set. feq. rewrite !after_free_unowned. repeat split; auto. }
+  destruct (exec_run_ok Fr F _ _ _ _ _ _ HR HK Hrun H) as [HR2 HK2]. split; [exact HR2|]. split; [exact HK2|].
+  unfold write_key_new_cleanup in H. cbn [exec] in H. inversion H; subst o2 m2 r. clear H.
+  split; [reflexivity|]. split; [|split].
+  - intros g Hg. rewrite !get_set. rewrite !(field_eqb_neq (FTmp _) g) by (intros E; eapply Hg; symmetry; exact E). reflexivity.
+  - intros k Hk. rewrite !get_set. destruct k as [|[|[|[|k]]]]; try lia; feq; reflexivity.
+  - intros k Hk. rewrite !get_set. rewrite !(field_eqb_neq (FTmp _) (FTmp k)) by (intros E; inversion E; lia). reflexivity.
+Qed.
+
+Lemma nth_app_last : forall {A} (l : list A) e d, nth (length l) (l ++ [e]) d = e.
+Proof. intros A l e d. rewrite app_nth2 by lia. rewrite Nat.sub_diag. reflexivity. Qed.
+
+Lemma aux_flds_mono : forall g k, In g (aux_flds k) -> In g (aux_flds (S k)).
+Proof. intros g k H. apply in_aux_flds in H. apply in_aux_flds. destruct H as [H|[i [Hi H]]]; [auto|right; exists i; split; [lia|exact H]]. Qed.
+
+Lemma write_key_ok : forall kl Fr F o m inv e o' m' r,
+  obj_inv o -> keys_len kl (auxs o) -> rel Fr o m -> (inv = false -> aklen e = kl (akey e)) ->
+  step_write_key F m o inv e = (o', m', r) -> obj_inv o' /\ rel Fr o' m' /\ keys_len kl (auxs o').
+Proof.
+  intros kl Fr F o m inv e o' m' r I HL HR Hkl H. unfold step_write_key in H.
+  destruct inv; [inversion H; subst; auto|]. specialize (Hkl eq_refl).
+  pose proof (fun k => tmp_null o k I) as Ht.
+  destruct (find_key (akey e) (auxs o) 0) as [i|] eqn:Ef.
+  - (* the key exists: its value is replaced *)
+    apply find_key_spec in Ef. rewrite Nat.sub_0_r in Ef. destruct Ef as [_ [Hi Hkey]]. rewrite (oi_auxlen I) in Hi.
+    cbn [exec] in H. destruct (m_alloc F m (avlen e)) as [[id|] m1] eqn:EA.
+    2:{ inversion H; subst. split; [exact I|]. split; [eapply rel_alloc_none; eauto|exact HL]. }
+    unfold write_key_upd_prog in H. cbn [tl] in H.
+    destruct (oi_auxi I _ Hi) as [_ [_ HV]]. destruct (get o (FAuxV i)) as [| |idv bv|] eqn:EV; try discriminate. clear HV.
+    pose proof (oi_claims I _ _ _ EV) as Hbv.
+    assert (Hrun : run_ok (write_key_upd_prog o i e) o).
+    { unfold write_key_upd_prog. cbn [run_ok]. rewrite Ht. split; [reflexivity|]. intros id'.
+      rewrite !get_set. feq. rewrite EV. cbn [after_free freeable is_owned].
+      change (claim (set o (FTmp 0) (Owned id' (avlen e))) (FAuxV i)) with (claim o (FAuxV i)).
+      rewrite <- Hbv, Nat.eqb_refl. rewrite ?field_eqb_refl, ?Nat.eqb_refl. repeat split; auto. }
+    assert (Hall : exec F (write_key_upd_prog o i e) m o = (o', m', r)).
+    { unfold write_key_upd_prog. cbn [exec]. rewrite EA. exact H. }
+    destruct (exec_run_ok Fr F _ _ _ _ _ _ HR (oi_keys I) Hrun Hall) as [HR' HK'].
+    cbn [exec] in H. inversion H; subst o' m' r. clear H Hall Hrun.
+    match goal with |- obj_inv ?x /\ _ => set (o5 := x) in * end.
+    assert (G : forall g, get o5 g = if field_eqb (FAuxV i) g then Owned id (avlen e) else get o g).
+    { intros g. unfold o5. rewrite get_with_auxs. rewrite !get_set. feqc. rewrite ?field_eqb_refl, ?Nat.eqb_refl. cbv beta iota.
+      destruct (field_eqb (FTmp 0) g) eqn:A; destruct (field_eqb (FAuxV i) g) eqn:B; try reflexivity.
+      - apply field_eqb_eq in A, B. congruence.
+      - apply field_eqb_eq in A. subst g. symmetry. apply Ht. }
+    assert (Hnth : forall j d, j <> i -> nth j (set_nth (auxs o) i e) d = nth j (auxs o) d) by (intros; apply nth_set_nth_other; auto).
+    assert (Hnthi : forall d, nth i (set_nth (auxs o) i e) d = e) by (intros; apply nth_set_nth_same; rewrite (oi_auxlen I); exact Hi).
+    split; [|split; [exact HR'|]].
+    + constructor; auto.
+      * intros g. rewrite G. destruct (field_eqb (FAuxV i) g); [reflexivity|apply (oi_ok I)].
+      * intros g id' b Hg. rewrite G in Hg. destruct (field_eqb (FAuxV i) g) eqn:B.
+        -- apply field_eqb_eq in B. subst g. inversion Hg; subst. unfold claim, aux_at, o5. cbn [auxs with_auxs]. rewrite Hnthi. reflexivity.
+        -- rewrite (oi_claims I _ _ _ Hg). destruct g; try reflexivity; unfold claim, aux_at, o5; cbn [auxs with_auxs].
+           ++ destruct (Nat.eq_dec i0 i) as [->|Hne]; [|rewrite Hnth by exact Hne; reflexivity].
+              rewrite Hnthi. rewrite Hkl. rewrite <- Hkey.
+              unfold keys_len in HL. rewrite Forall_forall in HL. apply HL. apply nth_In. rewrite (oi_auxlen I). exact Hi.
+           ++ destruct (Nat.eq_dec i0 i) as [->|Hne]; [rewrite field_eqb_refl in B; discriminate|rewrite Hnth by exact Hne; reflexivity].
+      * intros g Hg. rewrite G in Hg. change (ndim o5) with (ndim o). change (naux o5) with (naux o).
+        destruct (field_eqb (FAuxV i) g) eqn:B; [|apply (oi_dom I _ Hg)].
+        apply field_eqb_eq in B. subst g. apply aux_flds_full. apply in_aux_flds. right. exists i. auto.
+      * change (naux o5) with (naux o). intros Hk. rewrite G. feq. apply (oi_aux0 I Hk).
+      * change (naux o5) with (naux o). intros j Hj. rewrite !G. feq. destruct (oi_auxi I _ Hj) as [A1 [A2 A3]].
+        repeat split; auto. destruct (Nat.eqb i j); [reflexivity|exact A3].
+      * unfold o5. cbn [auxs naux with_auxs]. rewrite length_set_nth. apply (oi_auxlen I).
+      * apply (oi_len I).
+      * change (ndim o5) with (ndim o). intros E g Hg. rewrite G. destruct (field_eqb (FAuxV i) g) eqn:B; [|apply (oi_tbl0 I E _ Hg)].
+        apply field_eqb_eq in B. subst g. discriminate.
+      * change (ndim o5) with (ndim o). intros E g Hg. rewrite G. destruct (field_eqb (FAuxV i) g); [reflexivity|apply (oi_tbl I E _ Hg)].
+    + unfold o5. cbn [auxs with_auxs]. unfold keys_len in *. rewrite Forall_forall in *. intros a Ha.
+      destruct (In_nth _ _ e Ha) as [j [Hj Hnj]]. rewrite length_set_nth in Hj.
+      destruct (Nat.eq_dec j i) as [->|Hne]; [rewrite Hnthi in Hnj; subst a; exact Hkl|].
+      rewrite Hnth in Hnj by exact Hne. subst a. apply HL. apply nth_In. exact Hj.
+  - (* a new key *)
+    destruct (exec F (write_key_new_prog o e) m o) as [[o1 m1] r1] eqn:E1.
+    destruct (wk_new_prog_result _ _ _ _ _ _ _ E1 Ht) as [Hc1 [Hsame1 [Hhi1 [F0 [F1 [F2 [F3 Hsucc]]]]]]].
+    destruct (exec_run_ok Fr F _ _ _ _ _ _ HR (oi_keys I) (run_ok_wk_new_prog o e Ht) E1) as [HR1 HK1].
+    destruct r1 as [why|].
+    + (* one of the four allocations failed: the locals are released *)
+      destruct (exec F (write_key_new_cleanup o e) m1 o1) as [[o2 m2] r2] eqn:E2. inversion H; subst o' m' r. clear H.
+      destruct (wk_cleanup Fr F o e _ _ _ _ _ HR1 HK1 F0 F1 F2 F3 E2) as [HR2 [HK2 [Hc2 [Hsame2 [Hlo2 Hhi2]]]]].
+      assert (G : forall g, get o2 g = get o g).
+      { intros g. destruct g; try (rewrite Hsame2, Hsame1 by (intros; discriminate); reflexivity).
+        rewrite Ht. destruct (Nat.lt_ge_cases k 4) as [Hk|Hk]; [apply Hlo2; exact Hk|]. rewrite Hhi2 by exact Hk. apply Hhi1; exact Hk. }
+      assert (Hc : core o2 = core o) by (rewrite Hc2; exact Hc1).
+      split; [eapply obj_inv_pointwise; eauto|]. split; [exact HR2|].
+      unfold core in Hc. inversion Hc as [[Q1 Q2 Q3 Q4 Q5 Hl]]. rewrite Hl. exact HL.
+    + (* all four succeeded: commit *)
+      destruct (Hsucc eq_refl) as [i0 [i1 [i2 [i3 [T0 [T1 [T2 T3]]]]]]]. clear Hsucc F0 F1 F2 F3.
+      set (n := naux o) in *.
+      destruct (aux_beyond_null o n I (le_n _)) as [NE [NK NV]].
+      assert (HA : freeable (get o FAux) (claim o FAux) = true).
+      { pose proof (oi_ok I FAux) as Hok. destruct (get o FAux) as [| |ida ba|] eqn:EA; try discriminate; [reflexivity|].
+        simpl. rewrite (oi_claims I _ _ _ EA). apply Nat.eqb_refl. }
+      assert (Hrun : run_ok (write_key_new_commit o e) o1).
+      { unfold write_key_new_commit. fold n. cbn [run_ok]. rewrite !get_set. feq. rewrite ?field_eqb_refl, ?Nat.eqb_refl.
+        rewrite (claim_core o1 o FAux Hc1). rewrite !Hsame1 by (intros; discriminate). rewrite NE, NK, NV.
+        rewrite after_free_unowned. repeat split; auto. }
+      destruct (exec_run_ok Fr F _ _ _ _ _ _ HR1 HK1 Hrun H) as [HR' HK'].
+      unfold write_key_new_commit in H. fold n in H. cbn [exec] in H. inversion H; subst o' m' r. clear H Hrun.
+      match goal with |- obj_inv ?x /\ _ => set (o5 := x) in * end.
+      assert (GA : get o5 FAux = Owned i0 (8 * S n)) by (unfold o5; rewrite get_with_auxs, !get_set; feq; rewrite ?field_eqb_refl; exact T0).
+      assert (GE : get o5 (FAuxE n) = Owned i1 16) by (unfold o5; rewrite get_with_auxs, !get_set; feq; rewrite ?Nat.eqb_refl; exact T1).
+      assert (GK : get o5 (FAuxK n) = Owned i2 (aklen e)) by (unfold o5; rewrite get_with_auxs, !get_set; feq; rewrite ?Nat.eqb_refl; exact T2).
+      assert (GV : get o5 (FAuxV n) = Owned i3 (avlen e)) by (unfold o5; rewrite get_with_auxs, !get_set; feq; rewrite ?Nat.eqb_refl; exact T3).
+      assert (GT : forall k, get o5 (FTmp k) = Null).
+      { intros k. unfold o5. rewrite get_with_auxs, !get_set. feq.
+        destruct k as [|[|[|[|k]]]]; feq; try reflexivity. rewrite Hhi1 by lia. reflexivity. }
+      assert (GO : forall g, g <> FAux -> g <> FAuxE n -> g <> FAuxK n -> g <> FAuxV n -> (forall k, g <> FTmp k) -> get o5 g = get o g).
+      { intros g N1 N2 N3 N4 N5. unfold o5. rewrite get_with_auxs, !get_set.
+        rewrite !(field_eqb_neq _ g) by (intros E; subst g; first [apply N1; reflexivity|apply N2; reflexivity|apply N3; reflexivity|apply N4; reflexivity|eapply N5; reflexivity]).
+        apply Hsame1. exact N5. }
+      assert (Hcases : forall g, g = FAux \/ g = FAuxE n \/ g = FAuxK n \/ g = FAuxV n \/ (exists k, g = FTmp k)
+                                 \/ (g <> FAux /\ g <> FAuxE n /\ g <> FAuxK n /\ g <> FAuxV n /\ forall k, g <> FTmp k)).
+      { intros g. destruct (field_eq_dec g FAux); [auto|]. destruct (field_eq_dec g (FAuxE n)); [auto|].
+        destruct (field_eq_dec g (FAuxK n)); [auto|]. destruct (field_eq_dec g (FAuxV n)); [auto 6|].
+        destruct g; try (right; right; right; right; right; repeat split; auto; intros; discriminate).
+        right; right; right; right; left. eauto. }
+      assert (Hlen : length (auxs o) = n) by apply (oi_auxlen I).
+      assert (Hc56 : core o5 = core (with_auxs o (S n) (auxs o ++ [e]))).
+      { unfold core in *. inversion Hc1 as [[Q1 Q2 Q3 Q4 Q5 Q6]]. unfold o5. cbn [ndim orders nknots naxes naux auxs with_auxs set]. congruence. }
+      split; [|split; [exact HR'|]].
+      * constructor; auto.
+        -- intros g. destruct (Hcases g) as [->|[->|[->|[->|[[k ->]|[N1 [N2 [N3 [N4 N5]]]]]]]]];
+             rewrite ?GA, ?GE, ?GK, ?GV, ?GT; try reflexivity. rewrite GO by assumption. apply (oi_ok I).
+        -- intros g id' b Hg. destruct (Hcases g) as [->|[->|[->|[->|[[k ->]|[N1 [N2 [N3 [N4 N5]]]]]]]]].
+           ++ rewrite GA in Hg. inversion Hg. reflexivity.
+           ++ rewrite GE in Hg. inversion Hg. reflexivity.
+           ++ rewrite GK in Hg. inversion Hg. unfold claim, aux_at, o5. cbn [auxs with_auxs]. rewrite <- Hlen, nth_app_last. reflexivity.
+           ++ rewrite GV in Hg. inversion Hg. unfold claim, aux_at, o5. cbn [auxs with_auxs]. rewrite <- Hlen, nth_app_last. reflexivity.
+           ++ rewrite GT in Hg. discriminate.
+           ++ rewrite GO in Hg by assumption. rewrite (oi_claims I _ _ _ Hg).
+              rewrite (claim_core o5 _ g Hc56).
+              destruct g as [ | | | | | | | | |i| |i|i|i|i]; try reflexivity; try congruence; unfold claim, aux_at; cbn [auxs with_auxs].
+              ** assert (i < n). { destruct (Nat.lt_ge_cases i n) as [Hl|Hl]; [exact Hl|]. destruct (aux_beyond_null o i I Hl) as [_ [A _]]. rewrite A in Hg; discriminate. }
+                 rewrite app_nth1 by lia. reflexivity.
+              ** assert (i < n). { destruct (Nat.lt_ge_cases i n) as [Hl|Hl]; [exact Hl|]. destruct (aux_beyond_null o i I Hl) as [_ [_ A]]. rewrite A in Hg; discriminate. }
+                 rewrite app_nth1 by lia. reflexivity.
+        -- intros g Hg. change (ndim o5) with (ndim o1). change (naux o5) with (S n).
+           unfold core in Hc1. inversion Hc1 as [[Hn1 Q2 Q3 Q4 Q5 Q6]]. rewrite Hn1.
+           destruct (Hcases g) as [->|[->|[->|[->|[[k ->]|[N1 [N2 [N3 [N4 N5]]]]]]]]].
+           ++ apply aux_flds_full. apply in_aux_flds. auto.
+           ++ apply aux_flds_full. apply in_aux_flds. right. exists n. auto.
+           ++ apply aux_flds_full. apply in_aux_flds. right. exists n. auto.
+           ++ apply aux_flds_full. apply in_aux_flds. right. exists n. auto.
+           ++ rewrite GT in Hg. congruence.
+           ++ rewrite GO in Hg by assumption. pose proof (oi_dom I _ Hg) as Hd. apply in_full_fields in Hd. apply in_full_fields.
+              destruct Hd as [Hd|[Hd|Hd]]; auto. right; right. apply aux_flds_mono. exact Hd.
+        -- intros _. rewrite GA. reflexivity.
+        -- change (naux o5) with (S n). intros j Hj. destruct (Nat.eq_dec j n) as [->|Hne]; [rewrite GE, GK, GV; auto|].
+           assert (Hjn : j < n) by lia. rewrite !GO by (try discriminate; try (intros E; inversion E; lia); intros; discriminate).
+           apply (oi_auxi I _ Hjn).
+        -- unfold o5. cbn [auxs naux with_auxs]. rewrite app_length. simpl. lia.
+        -- change (naxes o5) with (naxes o1). change (ndim o5) with (ndim o1). unfold core in Hc1. inversion Hc1 as [[Hn1 Q2 Q3 Hx1 Q5 Q6]].
+           rewrite Hn1, Hx1. apply (oi_len I).
+        -- change (ndim o5) with (ndim o1). unfold core in Hc1. inversion Hc1 as [[Hn1 Q2 Q3 Q4 Q5 Q6]]. rewrite Hn1. intros E g Hg.
+           destruct (Hcases g) as [->|[->|[->|[->|[[k ->]|[N1 [N2 [N3 [N4 N5]]]]]]]]]; try discriminate; [apply GT|].
+           rewrite GO by assumption. apply (oi_tbl0 I E _ Hg).
+        -- change (ndim o5) with (ndim o1). unfold core in Hc1. inversion Hc1 as [[Hn1 Q2 Q3 Q4 Q5 Q6]]. rewrite Hn1. intros E g Hg.
+           pose proof (tbl_fields_not_aux _ _ Hg) as Hna.
+           destruct (Hcases g) as [->|[->|[->|[->|[[k ->]|[N1 [N2 [N3 [N4 N5]]]]]]]]]; try discriminate.
+           ++ exfalso. apply in_tbl_fields in Hg. destruct Hg as [Hg|[j [_ Hg]]]; [simpl in Hg; intuition discriminate|discriminate].
+           ++ rewrite GO by assumption. apply (oi_tbl I E _ Hg).
+      * unfold o5. cbn [auxs with_auxs]. unfold keys_len. apply Forall_app. split; [exact HL|]. constructor; [exact Hkl|constructor].
 Qed.
